@@ -91,6 +91,26 @@ Theorem C18_oracle_sound_schedules : forall l0 f0 ls a b sets,
 Proof. exact c18_sched_sound. Qed.
 Print Assumptions C18_oracle_sound_schedules.
 
+(* schedules of n concurrent follower reads replayed on the real code (the driver: n = 3) against Model/RolesN.v through
+   the run function nrun_code (final system + SetCurrentRevision log): a case on which the model reproduces every read's
+   observation satisfies the oracle — C18_read_fresh_n at the run the case was checked against *)
+Theorem C18_oracle_sound_schedules_n : forall n l0 f0 ls obs sets frev_end,
+  c18_validb (SchedNCase n l0 f0 ls obs sets frev_end) = true ->      (* the schedule runs every read to completion *)
+  c18_check (SchedNCase n l0 f0 ls obs sets frev_end) = true ->
+  c18_oracle (SchedNCase n l0 f0 ls obs sets frev_end) = None.
+Proof. exact c18_schedn_sound. Qed.
+Print Assumptions C18_oracle_sound_schedules_n.
+Theorem C18_three_reads_checked_fresh : forall l0 f0 ls a b c sets frev_end,
+  c18_checkv (SchedNCase 3 l0 f0 ls [a; b; c] sets frev_end) = true ->
+  tobs_fresh a = true /\ tobs_fresh b = true /\ tobs_fresh c = true.
+Proof. exact c18_sched3_sound. Qed.
+Print Assumptions C18_three_reads_checked_fresh.
+Example C18_three_reads_case :
+  c18_checkv (SchedNCase 3 10 5 w_three [TObs true 10 12 false; TObs true 12 12 false; TObs true 12 12 false] [(5, 12)] 12) = true
+  /\ c18_checkv (SchedNCase 3 10 5 w_three [TObs true 10 10 false; TObs true 12 12 false; TObs true 12 12 false] [(5, 12)] 12) = false
+  /\ c18_oracle (SchedNCase 3 10 5 w_three [TObs true 10 12 false; TObs true 12 11 false; TObs true 12 12 false] [(5, 12)] 12) = Some 0.
+Proof. vm_compute. repeat split. Qed.
+
 (* two overlapping reads where the second one's fetch fails: the failing read errs without touching the
    read revision, the first read is served at the revision it adopted *)
 Theorem C18_failed_fetch_leaves_others_alone : forall r l, fetch_succeeds l = false ->
